@@ -4,6 +4,9 @@ use std::convert::TryFrom;
 #[cfg(feature = "http-listener")]
 use std::net::{IpAddr, Ipv4Addr, SocketAddr};
 use std::num::NonZeroU32;
+#[cfg(metrics_verif)]
+use metrics::__verif::sync::RwLock;
+#[cfg(not(metrics_verif))]
 use std::sync::RwLock;
 #[cfg(any(feature = "http-listener", feature = "push-gateway"))]
 use std::thread;
@@ -522,6 +525,13 @@ impl PrometheusBuilder {
     /// section in the top-level crate documentation for more information.
     pub fn build_recorder(self) -> PrometheusRecorder {
         self.build_with_clock(Clock::new())
+    }
+
+    /// Verification seam: builds the recorder around a caller-supplied clock.
+    #[cfg(metrics_verif)]
+    #[doc(hidden)]
+    pub fn __verif_build_with_clock(self, clock: Clock) -> PrometheusRecorder {
+        self.build_with_clock(clock)
     }
 
     pub(crate) fn build_with_clock(self, clock: Clock) -> PrometheusRecorder {
